@@ -39,8 +39,21 @@ theorem source_numeric_wins (fs : List Regex.Re) (val : List Char) (h : Secrets.
     Src.check_sensitive_item_format fs val = .numeric := by
   rw [source_classify]; unfold Secrets.classify; simp only [h, ↓reduceIte]
 
-/-! ## `_anonymize_value` as written in the source -/
+/-! ## `_extract_enclosing_text` as written in the source -/
 open Secrets
+
+/-- **the source's `_extract_enclosing_text` (a `while True` around two `for` loops over the regenerated tables) is the model's**,
+and what it splits off concatenates back to the value (C09: the enclosing text is restored around the replacement) -/
+theorem source_extract_enclosing (fuel : Nat) (v h t : List Char) :
+    Src.extract_enclosing_text fuel v h t = extractEnclosing fuel v h t := SrcTie.extract_tie fuel v h t
+
+theorem source_enclosing_text_concat (v : List Char) :
+    (Src.extract_enclosing_text (v.length + 1) v [] []).1 ++ (Src.extract_enclosing_text (v.length + 1) v [] []).2.1 ++
+      (Src.extract_enclosing_text (v.length + 1) v [] []).2.2 = v := by
+  rw [source_extract_enclosing]
+  simpa using extractEnclosing_concat (v.length + 1) v [] []
+
+/-! ## `_anonymize_value` as written in the source -/
 
 variable (x : Ext) (fs : List Regex.Re) (salt : List Char)
 
